@@ -640,6 +640,14 @@ def anchored_lists_rule(ck, facts):
         return
     fn = fns[0]
     marks = [bi for bi, t in fn.calls() if call_name_matches(t, r"Engine::<'a, L>::mark_list_node$")]
+    for u in facts.with_closures(fn)[1:]:
+        if any(call_name_matches(t, r"Engine::<'a, L>::mark_list_node$") for _, t in u.calls()):
+            # marked from a closure (`list_seeds.into_iter().for_each(|i| self.mark_list_node(i))`): the call that receives the closure
+            for bi, t in fn.calls():
+                for a_ in t["args"]:
+                    o_ = fn.origin(a_) if a_[0] != "k" else ("const",)
+                    if o_[0] == "agg" and o_[1].get("def") == u.id:
+                        marks.append(bi)
     renders = [bi for bi, t in fn.calls() if call_name_matches(t, r"Engine::<'a, L>::(jsonify|make_node_object)$")]
     for u in facts.with_closures(fn)[1:]:
         if any(call_name_matches(t, r"Engine::<'a, L>::(jsonify|make_node_object)$") for _, t in u.calls()):
